@@ -197,7 +197,10 @@ def result_class_oracle(chk, rng, n):
              (np.array([1, np.inf], dtype=np.float32), ValueError), ([np.float32('nan')], ValueError), (np.float32(2.5), None),
              (np.array([1.5, 2.5], dtype=np.float32), None), (np.int64(3), None),
              ([float('nan'), None], ValueError), ([1.0, "a", float('inf')], ValueError), ((float('nan'), 1), ValueError),
-             (np.array([1, None, np.nan], dtype=object), ValueError), ([1.0, None, "a"], None), (["a", "b"], None)]
+             (np.array([1, None, np.nan], dtype=object), ValueError), ([1.0, None, "a"], None), (["a", "b"], None),
+             # finite results stay finite however large they are together: every element is looked at, not a sum, a mean or a norm of them
+             (np.array([1e308, 1e308]), None), (np.array([3e38, 3e38], dtype=np.float32), None), ([1e308, 1e308, -1e308], None), ([10 ** 400, 1.0], None),
+             (np.array([-1.7e308, -1.7e308, 5.0]), None), (1.7976931348623157e308, None), (np.array([[1e200, 1e200], [1e200, 1e200]]), None)]
     for v, exc, wrapped in [(v, exc, w) for v, exc in table for w in (False, True)]:
         class K(HookHost):
             h = Hook[Any]()
